@@ -12,7 +12,9 @@ Record rd_case : Type := mkrdcase {
   rc_idx : nat; rc_fn : fn; rc_edges : list edge; rc_nodes : list rnode;
   rc_names : list nanno; rc_defined : list danno }.
 
-(* 0 ok | 1 graph | 2 not the fixed point of the generated equations | 3 soundness inclusions
+(* 0 ok | 1 graph | 2 not the fixed point of the generated equations
+   | 3 soundness inclusions: neither the node-level ones (hypothesis of the guarded theorem; they cannot hold for an
+     edge-sensitive implementation) nor the edge-sensitive ones (hypothesis of the unguarded theorem) hold
    | 4 DEFINITIONS on names | 5 DEFINED_VARS_IN
    | 7 only: the edge-sensitive (unguarded) inclusions fail: a for header kills its target on the exit edge (known finding) *)
 Definition rd_code (c : rd_case) : nat :=
@@ -22,7 +24,7 @@ Definition rd_code (c : rd_case) : nat :=
   let R := reach_fwd E entry in
   if negb (incl_edges (cfg_fn (rc_fn c)) E) then 1
   else if negb (rd_fix rd_table E ns R) then 2
-  else if negb (rd_sound E ns entry R) then 3
+  else if negb (rd_sound E ns entry R || rd_sound_e E ns entry R) then 3
   else if negb (forallb (rd_nanno_ok rd_name_load_reads_in ns) (rc_names c)) then 4
   else if negb (forallb (rd_danno_ok E ns) (rc_defined c)) then 5
   else if negb (rd_sound_e E ns entry R) then 7
